@@ -154,7 +154,7 @@ def discover_harnesses():
 def mk(kv, name, base, crate, mod, doc):
     return dict(name=name, file=base, crate=crate, full=mod + '::' + name,
                 props=kv.get('props', '').split(','), tier=kv.get('tier', 'quick'),
-                cap=int(kv.get('cap', '300')), group=kv.get('group', 'core'),
+                cap=min(int(kv.get('cap', '300')), int(os.environ.get('VERIF_CAP_MAX', '100000'))), group=kv.get('group', 'core'),
                 known=kv.get('known'), doc=doc, fns=kv.get('fns', ''))
 
 
